@@ -7,7 +7,7 @@
 (* evaluated in every state by the CONSTRAINT (operator Soft): a violation is printed    *)
 (* and the behaviour is pruned, so one run reports all violating traces, not only the    *)
 (* first.  Requires -workers 1.                                                          *)
-EXTENDS Integers, Sequences, TLC, Json, IOUtils
+EXTENDS Integers, Sequences, FiniteSets, TLC, Json, IOUtils
 
 Traces == JsonDeserialize(IOEnv.TRACE_FILE)
 NTraces == Len(Traces)
@@ -24,6 +24,8 @@ AcceptedAll(LenOf(_)) ==
     /\ \A t \in 1..NTraces :
           LET r == TLCGet(Base + t)
           IN  r[1] = LenOf(t) + 1 \/ PrintT(<<"REJ", t, r[1], r[2]>>)
+    /\ PrintT(<<"SUMMARY", NTraces,
+                 Cardinality({t \in 1..NTraces : TLCGet(Base + t)[1] # LenOf(t) + 1})>>)
     /\ PrintT("TRACECHECK-DONE")
 
 (* helpers for JSON data *)
